@@ -69,7 +69,7 @@ def gen_case(rng, tier, idx):
     for _ in range(rng.choice([0, 1, 2])):
         obs.append({"on": rng.choice(["all", "rule", "datasource", "parser", "combiner"]), "raises": True})
     return {"graph": g, "entry": {"form": rng.choice(["all", "all", "incremental_shared"])}, "observers": obs,
-            "multi_seed": rng.getrandbits(32), "enumerate": True}
+            "multi_seed": rng.getrandbits(32), "enumerate": True, "host": rng.random() < 0.4}
 
 
 def placements(case):
@@ -128,6 +128,8 @@ def run_one(c, ctx):
         ctx.count("tracebacks_checked", len(tbs))
         ctx.count("observer_exceptions_raised", len(r.observer_excs))
         ctx.count("survivors_compared", sum(1 for m in r.model if m["present"]))
+        if c.get("host"):
+            ctx.count("evaluations_with_host_context_alarm_checked")
         for m in r.model:
             for (_, k, oc) in m["raised"]:
                 ctx.seen("fault_kinds_raised", oc + ("@element" if k is not None else ""))
